@@ -176,6 +176,11 @@ func step(line string) string {
 		if haveExpect && (err != nil || n != len(b)) {
 			flags = append(flags, "ROUNDTRIP-PARSE")
 		}
+		if haveExpect {
+			if bad := cloneCheck(b, w); bad != "" {
+				flags = append(flags, "ROUNDTRIP-CLONE:"+bad)
+			}
+		}
 	}
 	if haveGolden && !res.Built {
 		flags = append(flags, "GOLDEN-NOBUILD")
@@ -219,6 +224,44 @@ func stickyViolation(toks []string, calls []string) string {
 			strings.HasPrefix(op, "copy") || strings.HasPrefix(op, "merge") || strings.HasPrefix(op, "end") ||
 			op == "err") {
 			return fmt.Sprintf("call %d (%s) succeeded after %s", i, op, first)
+		}
+	}
+	return ""
+}
+
+// cloneCheck: every Clone variant of a built message / list is an independent copy that reads as
+// the original does (C01: raw copies via Clone).
+func cloneCheck(b []byte, want string) (bad string) {
+	defer func() {
+		if e := recover(); e != nil {
+			bad = "panic"
+		}
+	}()
+	orig := append([]byte(nil), b...)
+	var clones [][]byte
+	switch spec.Value(b).Type() {
+	case spec.TypeMessage, spec.TypeBigMessage:
+		m := spec.OpenMessage(b)
+		clones = append(clones, m.Clone().Raw(), m.CloneTo(nil).Raw(), m.CloneTo(make([]byte, 0, len(b)+17)).Raw(),
+			m.CloneTo(make([]byte, 3)).Raw(), m.CloneToBuffer(buffer.New()).Raw())
+		pre := buffer.New()
+		pre.Write([]byte{1, 2, 3})
+		clones = append(clones, m.CloneToBuffer(pre).Raw())
+	case spec.TypeList, spec.TypeBigList:
+		l := spec.OpenList(b)
+		clones = append(clones, l.Clone().Raw(), l.CloneTo(nil).Raw(), l.CloneTo(make([]byte, 0, len(b)+5)).Raw(), l.CloneTo(make([]byte, 2)).Raw())
+	default:
+		return ""
+	}
+	for i, c := range clones {
+		if !bytes.Equal(c, orig) {
+			return "bytes-differ-" + strconv.Itoa(i)
+		}
+		if len(c) > 0 && len(b) > 0 && &c[0] == &b[0] {
+			return "not-a-copy-" + strconv.Itoa(i)
+		}
+		if rd.Walk(c, c) != want {
+			return "reads-differently-" + strconv.Itoa(i)
 		}
 	}
 	return ""
